@@ -7,6 +7,8 @@ import QsmtpModel.Spec.Mailbox
 namespace QsmtpModel.Vpop
 open QsmtpModel QsmtpModel.Spec.Mailbox
 
+deriving instance DecidableEq for Except
+
 /-! ### path splitting and the single component case -/
 
 theorem comps_noslash (p : List Byte) : ∀ acc, SLASH ∉ p →
